@@ -217,7 +217,7 @@ CONFIG = {
     "C10": {
         "level": "exploration",
         "rule": "C10: exhaustive self-deadlock sweep over every public method of the 20 collection types; generated concurrent programs checked for linearizability (porcupine) and structural integrity; the same kind of programs under the race detector with classified reports.",
-        "groups": [G("c10", run="TestMethodSelfDeadlock|TestLinearizability|TestDrainStress|TestBlockingGetStress|TestCrossPutAll|TestAddStress|TestGrowthStress|TestBoundStress", shards={"quick": 4, "thorough": 16}, timeout={"quick": 600, "thorough": 3000}),
+        "groups": [G("c10", run="TestMethodSelfDeadlock|TestLinearizability|TestDrainStress|TestBlockingGetStress|TestCrossPutAll|TestAddStress|TestGrowthStress|TestBoundStress|TestFreshStructureStress", shards={"quick": 4, "thorough": 16}, timeout={"quick": 600, "thorough": 3000}),
                    G("c10", race=True, race_classified=True, run="TestKnownFindings|TestRaceDetector|TestRacePairs|TestRaceInstances|TestGrowthStress", shards={"quick": 4, "thorough": 16}, timeout={"quick": 600, "thorough": 3000}),
                    # the library's cached-clock mode is chosen by an environment variable read at start-up
                    G("c10", run="TestMethodSelfDeadlock", env={"WHATAP_DATETIME_MODE": "sync"}, shards={"quick": 1, "thorough": 2}, timeout={"quick": 600, "thorough": 1200})],
